@@ -104,8 +104,4 @@ theorem hasLen_iff : ∀ (l : List α) (n : Nat), hasLen l n = true ↔ n ≤ l.
   | nil => intro n; cases n <;> simp [hasLen]
   | cons a l ih => intro n; cases n <;> simp [hasLen, ih]
 
-/-- `zcode.SizeOfUvarint`. -/
-def sizeOfUvarint (u : Nat) : Nat := if u < 128 then 1 else sizeOfUvarint (u / 128) + 1
-decreasing_by omega
-
 end Zed.Zng
